@@ -346,22 +346,20 @@ def extract_for(pid, repo):
     out.append("variable %s\n\n" % cfg["variables"])
     # blocks of the committed copy, used when a function has left the translated subset (the definition then stays
     # the last successfully translated one, the SrcTie theorem keeps building, and the drift is reported as a note)
-    committed = {}
+    committed = []   # blocks of the committed copy, in table order: (rel, path, text)
     cpath = os.path.join(os.path.dirname(os.path.dirname(os.path.dirname(os.path.abspath(__file__)))), "lean",
                          "Compute", "Generated", "Src%s.lean" % pid)
     if os.path.exists(cpath):
-        cur = None
         for line in open(cpath).read().splitlines(keepends=True):
-            m = re.match(r"-- (\S+) :: (.+?)\s*(\[STALE.*)?$", line)
-            if m and m.group(1).endswith(".rs"):
-                cur = (m.group(1), m.group(2).strip())
-                committed[cur] = ""
+            m = re.match(r"-- (\S+\.rs) :: (.+?)\s*$", line)
+            if m:
+                committed.append([m.group(1), m.group(2).strip(), ""])
             elif line.startswith("end Cv.Src."):
-                cur = None
-            elif cur is not None:
-                committed[cur] += line
+                break
+            elif committed:
+                committed[-1][2] += line
     notes = []
-    for rel, path, okw in cfg["functions"]:
+    for i, (rel, path, okw) in enumerate(cfg["functions"]):
         full = os.path.join(repo, rel)
         try:
             if rel not in sources:
@@ -369,12 +367,11 @@ def extract_for(pid, repo):
             lean = rs2lean.translate(sources[rel], path, Opts(**okw))
             out.append("-- %s :: %s\n%s\n" % (rel, path, lean))
         except (rs2lean.Unsupported, rs2lean.NotFound, OSError) as ex:
-            key = (rel, path)
-            if key not in committed:
+            if not (i < len(committed) and committed[i][0] == rel and committed[i][1] == path and len(committed) == len(cfg["functions"])):
                 raise type(ex)("%s::%s: %s" % (rel, path, ex))
             notes.append("%s::%s left the translated Rust subset (%s: %s); the last translated definition is kept" % (
                 rel, path, type(ex).__name__, ex))
-            out.append("-- %s :: %s\n%s" % (rel, path, committed[key]))
+            out.append("-- %s :: %s\n%s" % (rel, path, committed[i][2]))
     out.append("end Cv.Src.%s\n" % pid)
     files = {"Compute/Generated/Src%s.lean" % pid: "".join(out)}
     if notes:
